@@ -123,6 +123,11 @@ def sweep_configs(tier):
         for k, mode in enumerate(MUL_MODES):
             cfg.append(('mul', n, m, mode, (n + m + k) % 2 == 1))
             cfg.append(('mul', m, n, mode, (n + m + k) % 2 == 0))
+    # products past 256 bits (weights that no longer fit a byte, levels past the small-integer range of the interpreter)
+    very_wide = [(256, 4), (2, 258), (255, 6)] if tier == 'quick' else [(256, 4), (2, 258), (255, 6), (4, 257), (130, 130), (129, 132), (3, 300)]
+    for k, (n, m) in enumerate(very_wide):
+        for mode in (('DEFAULT',) if tier == 'quick' else MUL_MODES):
+            cfg.append(('mul', n, m, mode, k % 2 == 1))
     if tier == 'thorough':
         for n, m in itertools.product((9, 10, 11, 12), repeat=2):
             for mode in MUL_MODES:
